@@ -375,6 +375,11 @@ class OrderedMultiDict(dict, MutableMappingSequence):
 
         kvlist = _insert_arg_helper(args)
 
+        if index < 0:
+            # Resolve a negative index once, as list.insert() does, so that
+            # incrementing it below keeps several pairs together and in order.
+            index = max(len(self) + index, 0)
+
         for (key, value) in kvlist:
             self.__items.insert(index, (key, value))
             index += 1
@@ -598,6 +603,10 @@ try:  # noqa: C901
                 )
 
             kvlist = _insert_arg_helper(args)
+
+            if index < 0:
+                # Resolve a negative index once, as list.insert() does.
+                index = max(len(self) + index, 0)
 
             for (key, value) in kvlist:
                 identity = self._title(key)
